@@ -281,6 +281,7 @@ struct World {
   unsigned zombie_gap = 1;   // 0 immediate, 1 schedulable
   int64_t clock_step_at_ms = -1;  // virtual time at which the wall clock (CLOCK_REALTIME) is stepped; -1: never
   int64_t clock_step_ms = 0;      // size of the step (signed); the monotonic clock and all timeouts are unaffected
+  unsigned stall_num = 0;    // per mille of pre-emptions that turn into a stall: the thread stays off the processor for 1 ms .. 2.5 s of virtual time
   unsigned core_dumps = 0;   // 1: deaths by a core-type signal carry the core-dump flag (0x80) in the wait status
   unsigned stick_pct = 50;   // probability (percent) that the task that ran last keeps running at a switch point
 };
@@ -301,6 +302,7 @@ struct Kernel {
   std::vector<ChildSpec *> dyn_specs;  // scripts of descendants (owned)
   uint64_t n_descendants = 0;
   uint64_t n_stepped_reads = 0;
+  uint64_t n_stalls = 0;
   std::set<int> natural_emfile_ops;  // ops during which the descriptor table really was full
   std::map<int, Proc *> by_pid;  // current pid table
   std::vector<Pipe *> pipes;
@@ -356,7 +358,7 @@ struct Kernel {
   void ofd_unref(OFD *o);
   Pipe *pipe_new();
   int user_pipe(int fds[2]);                 // harness: user-owned pipe in the caller
-  int user_open(const char *path, int flags); // harness: user-owned open
+  int user_open(const char *path, int flags, int min_fd = 3); // harness: user-owned open (by default above the standard numbers)
   int user_open_at(int fd, OFD::K kind);      // harness: place a TTY/NUL object on a specific number
   void user_close(int fd);
   const void *file_new(int fd);               // harness: fake FILE*
